@@ -463,6 +463,9 @@ func (r *Runner) assignVal(name string, prev expand.Variable, as *syntax.Assign,
 		if len(elems) > 0 && stringIndex(elems[0].Index) {
 			valType = "-A" // associative
 		}
+		if prev.Kind == expand.Associative {
+			valType = "-A" // assigning to an associative array keeps its type
+		}
 	}
 	if valType == "-A" {
 		amap := make(map[string]string, len(elems))
@@ -470,12 +473,18 @@ func (r *Runner) assignVal(name string, prev expand.Variable, as *syntax.Assign,
 			k := r.literal(elem.Index.(*syntax.Word))
 			amap[k] = r.literal(elem.Value)
 		}
-		if !as.Append {
-			prev.Kind = expand.Associative
-			prev.Map = amap
-			return name, prev
+		if as.Append && prev.Kind == expand.Associative {
+			// Add to a copy of the existing elements,
+			// as the map may be shared with a parent shell.
+			merged := maps.Clone(prev.Map)
+			if merged == nil {
+				merged = make(map[string]string, len(amap))
+			}
+			maps.Copy(merged, amap)
+			amap = merged
 		}
-		// TODO
+		prev.Kind = expand.Associative
+		prev.Map = amap
 		return name, prev
 	}
 	// The base array which the new elements are set on; empty unless
